@@ -72,6 +72,14 @@ theorem C20_read_is_observed (cfg : Cfg) (σ : State) (s : Sid) (o : Obj) (a : A
     (hvol : cfg.volatile a = false) : (((step cfg σ s (.read o a)).1.sess s).objs o).obs a = some v :=
   read_obs cfg σ s o a v hres hw hvol
 
+/-- … and when `E.get(id=o, a=v)` finds the object (through the identity map — `attr.__get__` — or through SQL followed by
+    `_set_rbits`) the application has learnt `o.a = v`: `v` is the recorded observation -/
+theorem C20_find_is_observed (cfg : Cfg) (σ : State) (s : Sid) (o : Obj) (a : Attr) (v : Val)
+    (hres : (step cfg σ s (.find o a v)).2.res = .ok (some 1)) (hw : ((σ.sess s).objs o).wbits a = false)
+    (hvol : cfg.volatile a = false) (ha : a ∈ cfg.attrs) :
+    (((step cfg σ s (.find o a v)).1.sess s).objs o).obs a = some v :=
+  find_obs cfg σ s o a v hres hw hvol ha
+
 /-- the ghost `written` records every assignment `obj.a = v` -/
 theorem C20_write_is_recorded (cfg : Cfg) (σ : State) (s : Sid) (o : Obj) (a : Attr) (v : Val)
     (hres : (step cfg σ s (.write o a v)).2.res = .ok none) :
@@ -244,8 +252,9 @@ def modelCrit (kind : Nat) (r : Bool) : Bool :=
 def modelExempt (sopt fu : Bool) : Bool :=
   (critCols (cfgProbe false true sopt) 0 fu (objProbe true false (some 3) (some 3))).contains 0
 
-/-- `ObjSt.read` = the real `Attribute.__get__` on the read bit, for every (write bit, volatile) -/
-theorem C20_bridge_get : getRows.length = 4 ∧ ∀ p ∈ getRows, modelGet p.1.1 p.1.2 = p.2 := by decide
+/-- `ObjSt.read` = the real `Attribute.__get__` on the read bit, for every (write bit, volatile), whether or not another
+    attribute of the object is assigned -/
+theorem C20_bridge_get : getRows.length = 8 ∧ ∀ p ∈ getRows, modelGet p.1.1 p.1.2.1 = p.2 := by decide
 
 /-- `ObjSt.write` = the real `Attribute.__set__` on both bits -/
 theorem C20_bridge_set : setRows.length = 4 ∧ ∀ p ∈ setRows, modelSet p.1.1 p.1.2 = p.2 := by decide
@@ -308,6 +317,16 @@ example : (step cfgAll (after cfgAll ones staleRead) 1 .close).2.res = .optimist
 example : (step cfgExcl (after cfgExcl ones lostUpdate) 1 .close).2.upd = some 1
     ∧ (after cfgExcl ones lostUpdate).store 1 0 = 50
     ∧ (after cfgExcl ones (lostUpdate ++ [(1, .close), (1, .close)])).store 1 0 = 60 := by decide
+
+-- a search criterion counts as a read: found through SQL, observed, and the stale UPDATE is refused
+example : (step cfgAll (after cfgAll ones []) 1 (.find 1 0 1)).2.res = .ok (some 1)
+    ∧ (((after cfgAll ones [(1, .find 1 0 1)]).sess 1).objs 1).obs 0 = some 1
+    ∧ (step cfgAll (after cfgAll ones [(1, .find 1 0 1), (1, .write 1 1 61), (0, .get 1 false), (0, .write 1 0 50), (0, .close), (0, .close)]) 1 .close).2.res
+        = .optimisticCheckError := by decide
+
+-- a session with two transactions: what it read in the first is still checked by the UPDATE of the second
+example : (step cfgAll (after cfgAll ones [(1, .get 1 false), (1, .read 1 0), (1, .write 1 1 61), (1, .commit), (1, .commit),
+      (0, .get 1 false), (0, .write 1 0 50), (0, .close), (0, .close), (1, .write 1 1 62)]) 1 .close).2.res = .optimisticCheckError := by decide
 
 -- a writer that finds the write lock taken waits (SQLite serialises writers)
 example : (step cfgAll (after cfgAll ones [(0, .get 1 false), (1, .get 1 false), (0, .write 1 0 50), (1, .write 1 1 60), (0, .flush)]) 1 .flush).2.res
